@@ -5,7 +5,7 @@ record the result in /verif/seeded/<name>/detection.json.  /repo, /verif/evidenc
 usage: dev/mutmatrix.py [names...]   (default: all)"""
 import concurrent.futures as cf, json, os, re, shutil, subprocess, sys, time
 
-MM = '/tmp/mm'
+MM = __import__('os').environ.get('MM_DIR', '/tmp/mm')
 
 
 def sh(cmd, **kw):
